@@ -1,9 +1,9 @@
 //@ tu: common/common_ctl.c libxcmctl/xcmc.c
-//@ defs: -DUT_STD_ASSERT -DXVU_STRCPY64 -DXVU_X2
+//@ defs: -DUT_STD_ASSERT -DXVU_STRCPY64
 //@ enforce: xcmc_attr_get
-//@ flags: --no-array-field-sensitivity
+//@ flags: --no-array-field-sensitivity --slice-formula
 //@ props: C14
-//@ expect: postcondition>=9 canary=8
+//@ expect: postcondition>=8 canary=8
 //@ timeout: 900
 #include "_unit_xcmc.h"
 void harness(void)
